@@ -13,7 +13,7 @@
 From Coq Require Import List NArith ZArith Bool String Ascii Lia.
 From V Require Import Base.Util Base.Strings Base.Result Model.Registry Model.Settings Model.Subst
   Model.TypePath Model.Derives Model.Generate Model.Shape Model.RngWords Model.ExampleRust
-  Model.Conforms Proofs.GenProofs Proofs.FidelityGen Proofs.GenTotal Proofs.ExampleValueProofs
+  Model.Equal Model.Conforms Proofs.ShapeBool Proofs.GenProofs Proofs.FidelityGen Proofs.GenTotal Proofs.ExampleValueProofs
   Proofs.ExampleRustProofs Proofs.ExampleRustTotal.
 Import ListNotations.
 Open Scope list_scope.
@@ -476,6 +476,14 @@ Section Main.
     inversion H; subst. pose proof (resolve_go_inst _ _ _ _ _ E []) as K. rewrite app_nil_r in K. exact K.
   Qed.
 End Main.
+
+Theorem example_conforms_checked (r : registry) (s : settings) (m : items) :
+  generate r s (Equal.types_equal r) = Ok m -> skeleton_consistentb r s = true ->
+  forall id ws ts, example_rust r s id ws = XOk ts -> conforms r s m id ts [].
+Proof.
+  intros Hg Hs. apply (example_conforms r s (Equal.types_equal r) m Hg).
+  apply ShapeBool.skeleton_consistentb_sound. exact Hs.
+Qed.
 
 (** ** 4. soundness of the boolean reader *)
 Lemma expect_ok x ts rest : expect x ts = Some rest -> ts = x :: rest.
